@@ -26,6 +26,12 @@ REG = {
             "len, getall_* vs per-sample, getall helper functions (list/ndarray/tensor roots, slow path), introspection and "
             "dispose on linear chains",
             "DESIGN.md §3 C02", TRUST),
+    "C03": ("exploration", "Hypothesis-generated class layouts and boundary arguments vs. per-wrapper validity predicates + metamorphic partition law",
+            "10 facets (one per wrapper): explicit class layouts incl. absent/single-sample classes, arguments on 0/1/non-integer "
+            "boundaries; oracle per wrapper from its documentation (filter order, contiguity, permutation-ness, stable class order, "
+            "per-class counts, round-robin copies, balance and even reuse), complementary ranges must partition the dataset, two "
+            "builds under different global RNG states must agree, construction must return within a 300x margin",
+            "DESIGN.md §3 C03", TRUST),
     "C04": ("exploration", "Hypothesis-generated geometries + bounded-exhaustive sweep vs. statement-derived reference model",
             "random search (4k quick / 80k thorough configs) plus complete enumeration of all geometries N<=6 (quick) / N<=8 "
             "(thorough) x B x drop_last x drop_last_batch_size x budget kind x budget<=3 epochs; each compared item-by-item "
